@@ -40,7 +40,7 @@ def k_retry(max_retries=6):
     world = _install()
     from jade.utils.run_command import run_command
 
-    ERR = "Invalid job id specified"
+    ERRS = ["Invalid job id specified", "Invalid qos specification"]
 
     def harness(ex):
         retries = ex.int("retries", 0, max_retries)
@@ -53,16 +53,17 @@ def k_retry(max_retries=6):
         def popen(argv, *a, **kw):
             k = len(calls)
             rc = ex.int("rc%d" % k, -255, 255)
-            p = ex.flag("perm%d" % k)
+            which = ex.choice("perm%d" % k, len(ERRS) + 1)  # 0 = transient, k = the k-th listed permanent error
+            p = which > 0
             rcs.append(rc)
             perm.append(p)
             calls.append(list(argv))
-            return _Pipe(rc, out="out%d" % k, err=("slurm: %s\n" % ERR) if p else "transient %d" % k)
+            return _Pipe(rc, out="out%d" % k, err=("slurm: %s\n" % ERRS[which - 1]) if p else "transient %d" % k)
 
         world.KERNEL.update(popen=popen, sleep=lambda s: sleeps.append(s))
         try:
             output = {} if want_output else None
-            kw = dict(error_strings=[ERR]) if use_errors else {}
+            kw = dict(error_strings=list(ERRS)) if use_errors else {}
             ret = run_command("squeue -u me", output, num_retries=retries, retry_delay_s=delay, **kw)
         finally:
             world.KERNEL.update(popen=None, sleep=None)
